@@ -54,9 +54,12 @@ type NOp struct {
 	TreeLeaf int `json:"treeleaf,omitempty"`
 	// PresetNext (peer): the block arrives with a NextHash already filled in (a field outside id and signature that the
 	// ledger maintains itself); the block is otherwise genuine and valid
-	PresetNext bool     `json:"presetnext,omitempty"`
-	Old        []string `json:"old,omitempty"`   // peer: txids (hex) of already confirmed transactions to re-include
-	TxsAt      *int     `json:"txsat,omitempty"` // peer: assemble the block's transactions against the state after this block (adversarial)
+	PresetNext bool `json:"presetnext,omitempty"`
+	// PoolMut (peer, adversarial): the first pending transaction the block includes (op.Pool) is carried with an altered
+	// body - first output paid to somebody else - under its ORIGINAL txid and signatures
+	PoolMut bool     `json:"poolmut,omitempty"`
+	Old     []string `json:"old,omitempty"`   // peer: txids (hex) of already confirmed transactions to re-include
+	TxsAt   *int     `json:"txsat,omitempty"` // peer: assemble the block's transactions against the state after this block (adversarial)
 }
 
 // NodeMachine couples a real node with the reference model.
@@ -81,6 +84,8 @@ type NodeMachine struct {
 	// Unauth: ids of generated transactions that are NOT properly authorised (signature removed / foreign key /
 	// flag mutants): a block re-using one of them is invalid although the model state would admit its effects
 	Unauth map[string]bool
+	// Altered: stored copies (by pointer) of transactions a block carried with an altered body under the original id
+	Altered map[*pb.Transaction]bool
 	// CheckFresh: compare with a freshly replayed node after walks and at the end
 	Specs       map[string]TxSpec // every spec submitted through a "tx" op, by txid
 	LastOutcome string
@@ -94,7 +99,7 @@ func NewNodeMachine(opts NodeOpts, fs *FindingSet) (*NodeMachine, error) {
 		return nil, err
 	}
 	nm := &NodeMachine{N: n, FS: fs, BlockTxs: map[int][]*pb.Transaction{}, States: map[int]*MState{}, Valid: map[int]bool{}, WhyNot: map[int]string{},
-		Seq: 100, IrrevBlk: -1, Window: opts.Window, KeyUniv: map[string]bool{}, Stat: map[string]int{}, Specs: map[string]TxSpec{}, Unauth: map[string]bool{}}
+		Seq: 100, IrrevBlk: -1, Window: opts.Window, KeyUniv: map[string]bool{}, Stat: map[string]int{}, Specs: map[string]TxSpec{}, Unauth: map[string]bool{}, Altered: map[*pb.Transaction]bool{}}
 	nm.LM = NewLedgerMachineOn(func() *ledgerpkg.Ledger { return nm.N.Ledger }, n.Root, fs)
 	s := NewMState()
 	root := CloneTxs(n.Root.Transactions)
@@ -552,6 +557,9 @@ func (nm *NodeMachine) Apply(op NOp) error {
 						if cerr := s.Check(otx, height); cerr != nil {
 							valid = false
 							whyNot = fmt.Sprintf("re-included transaction %s: %v", Hex8(otx.Txid), cerr)
+						} else if nm.Altered[otx] {
+							valid = false
+							whyNot = fmt.Sprintf("re-included copy of transaction %s has an altered body under the original id", Hex8(otx.Txid))
 						} else if nm.Unauth[string(otx.Txid)] {
 							valid = false
 							whyNot = fmt.Sprintf("re-included transaction %s is not authorised by its initiator", Hex8(otx.Txid))
@@ -639,11 +647,26 @@ func (nm *NodeMachine) Apply(op NOp) error {
 			s.Apply(tx, prop.Address)
 			txs = append(txs, tx)
 		}
+		poolMutDone := false
+		alteredAt := -1
 		for _, idHex := range op.Pool {
 			for _, ptx := range nm.Pool {
-				if hex.EncodeToString(ptx.Txid) == idHex && s.Check(ptx, height) == nil {
+				if (hex.EncodeToString(ptx.Txid) == idHex || idHex == "*") && s.Check(ptx, height) == nil {
 					s.Apply(ptx, prop.Address)
-					txs = append(txs, CloneTx(ptx))
+					cp := CloneTx(ptx)
+					if op.PoolMut && !poolMutDone && len(cp.TxOutputs) > 0 && string(cp.TxOutputs[0].ToAddr) != FeeAddr {
+						thief := Ring[(op.Proposer+1)%5].Address
+						if string(cp.TxOutputs[0].ToAddr) == thief {
+							thief = Ring[(op.Proposer+2)%5].Address
+						}
+						cp.TxOutputs[0].ToAddr = []byte(thief)
+						poolMutDone = true
+						alteredAt = len(txs)
+						valid = false
+						whyNot = fmt.Sprintf("the block carries pending transaction %s with an altered body under its original id", Hex8(cp.Txid))
+						nm.Stat["peer-altered-copy-of-pending-tx"]++
+					}
+					txs = append(txs, cp)
 				}
 			}
 		}
@@ -696,6 +719,9 @@ func (nm *NodeMachine) Apply(op NOp) error {
 			nm.Stat["peer-preset-nexthash"]++
 		}
 		pristine := CloneTxs(txs)
+		if alteredAt >= 0 && alteredAt < len(pristine) {
+			nm.Altered[pristine[alteredAt]] = true
+		}
 		stored, err := nm.LM.ConfirmPrepared(op.Label, parent, blk, op.TwoCB)
 		if err != nil {
 			return err
